@@ -100,13 +100,14 @@ impl Dechunker {
 
         const SANITY_CHECK: usize = 20;
 
+        // Chunk extensions (after a ';') can be of any length, the chunk length can not.
+        let maybe_meta = src[..i].iter().position(|c| *c == b';');
+        let len_end = maybe_meta.unwrap_or(i);
+
         // Some sanity check for how long the chunk length is
-        if i > SANITY_CHECK {
+        if len_end > SANITY_CHECK {
             return Err(Error::ChunkExpectedCrLf);
         }
-        let maybe_meta = src.iter().take(100).position(|c| *c == b';');
-
-        let len_end = maybe_meta.unwrap_or(SANITY_CHECK + 1).min(i);
         let len_str = str::from_utf8(&src[..len_end])
             .map_err(|_| Error::ChunkLenNotAscii)?
             .trim();
